@@ -61,6 +61,12 @@ class C07(Check):
             p_indicator_bounds=0.6,
             objectives=OBJECTIVES, n_objectives=(2, 3) if multi else (1, 1),
         )
+        if rng.random() < 0.2:
+            # due-date scenario: the objective is one of the due-date indicators, whose optimum may be
+            # zero or (maximum lateness) negative.  No optional tasks: what these indicators count for an
+            # unscheduled task is C06's matter (known finding), not this property's.
+            prof = dict(prof, p_optional=0.0, p_due=0.7, indicators=["Tardiness", "Earliness", "NumberOfTardyTasks", "MaximumLateness", "MaximumLateness"],
+                        n_indicators=(1, 2), objectives=["MinimizeIndicator", "MinimizeIndicator", "MaximizeIndicator"], slack=(2, 8))
         spec = gen.gen_spec(keyed_rng(run_seed, "spec"), prof)
         if not spec["objectives"]:
             spec["objectives"] = [{"kind": "MinimizeMakespan"}]
@@ -123,6 +129,10 @@ class C07(Check):
                 if "verdict" not in env[0]:
                     env[0] = dict(env[0], steer={"mode": "pin", "pins": {"OBJ": far if rng.random() < 0.7 else near}, "tag": "bound"})
                 plan["fault_free"] = False
+        if nobj == 1 and "env" not in stepA and rng.random() < 0.25:
+            # a first model whose objective value is exactly 0 - where hand-written bounds and guards tend to sit
+            stepA["env"] = [{"steer": {"mode": "pin", "pins": {"OBJ": 0}, "tag": "zero"}}]
+            plan["fault_free"] = False
         script.append(stepA)
         # second optimiser
         cfgB = {"optimizer": "optimize"}
